@@ -13,8 +13,14 @@ use std::io::{Error, Read};
 /// Generic parser type that composes the lexer and scanner types
 pub type ParserType<'a, R> = Parser<Lexer<Scanner<'a, R>>>;
 
+/// Maximum nesting depth of lists, dicts and grids the parser accepts.
+/// Deeper input is rejected with an error instead of exhausting the stack.
+pub const MAX_NESTING_DEPTH: usize = 128;
+
 pub struct Parser<Lexer> {
     pub(super) lexer: Lexer,
+    /// Nesting depth of the value currently being parsed
+    pub(super) depth: usize,
 }
 
 impl<'a, R: Read> Parser<Lexer<Scanner<'a, R>>> {
@@ -23,12 +29,25 @@ impl<'a, R: Read> Parser<Lexer<Scanner<'a, R>>> {
         let mut lexer = Lexer::make(input)?;
         // Advance lexer to first token
         lexer.read()?;
-        Ok(Parser { lexer })
+        Ok(Parser { lexer, depth: 0 })
     }
 
     /// Parses a Haystack [Value](crate::val::Value) form the provided [Read](std::io::Read)
     /// stream.
     pub fn parse_value(&mut self) -> Result<Value, Error> {
+        if self.depth >= MAX_NESTING_DEPTH {
+            return self
+                .lexer
+                .make_generic_err("Maximum nesting depth exceeded");
+        }
+        self.depth += 1;
+        let value = self.parse_nested_value();
+        self.depth -= 1;
+        value
+    }
+
+    /// Parses the value at the current token, one nesting level below the caller
+    fn parse_nested_value(&mut self) -> Result<Value, Error> {
         match &self.lexer.cur.value {
             Some(value) => match value {
                 // Possible Grid ver
